@@ -514,3 +514,186 @@ func (e *Eng) sharedVars() {
 		}
 	}
 }
+
+// isEOFCompare: v is `x != io.EOF` / `x == io.EOF`; returns the operator
+func isEOFCompare(v ssa.Value) (token.Token, bool) {
+	b, ok := v.(*ssa.BinOp)
+	if !ok || (b.Op != token.NEQ && b.Op != token.EQL) {
+		return 0, false
+	}
+	isEOF := func(x ssa.Value) bool {
+		u, ok := x.(*ssa.UnOp)
+		if !ok || u.Op != token.MUL {
+			return false
+		}
+		g, ok := u.X.(*ssa.Global)
+		return ok && g.Name() == "EOF" && g.Pkg != nil && g.Pkg.Pkg.Path() == "io"
+	}
+	if isEOF(b.X) || isEOF(b.Y) {
+		return b.Op, true
+	}
+	return 0, false
+}
+
+// ndstreamChunks (C09): every chunk handed to a worker ends at a line boundary or at the end of the input, and the
+// forwarder blocks on delivery until an error item has been delivered.
+func (e *Eng) ndstreamChunks() {
+	props := []string{"C09"}
+	reader := e.fn("ParseNDStream$4")
+	if reader != nil {
+		reads := find(reader, isCall("(*bufio.Reader).Read"))
+		okc, detail := len(reads) == 1, fmt.Sprintf("%d calls of buf.Read", len(reads))
+		if okc {
+			// from the Read, a worker start (go) is reachable without ReadBytes only over the edge "err == io.EOF"
+			notEOFEdge := func(b *ssa.BasicBlock, k int) bool {
+				c, neg := condOf(b)
+				if c == nil {
+					return true
+				}
+				op, isCmp := isEOFCompare(c)
+				if !isCmp {
+					return true
+				}
+				trueEdge := (k == 0) != neg
+				eofEdge := (op == token.EQL) == trueEdge
+				return !eofEdge // block the edges on which the error IS io.EOF
+			}
+			if r, w := reachEdges(reads[0], isGo(), isCall("(*bufio.Reader).ReadBytes"), notEOFEdge); r {
+				okc, detail = false, "a worker is started at "+e.pos(w)+" on a chunk that was not extended to the next newline although the input has not ended (err != io.EOF)"
+			} else {
+				detail = "after buf.Read the chunk is extended with ReadBytes('\\n') on every path except err == io.EOF"
+			}
+			// and the delimiter is '\n'
+			for _, rb := range find(reader, isCall("(*bufio.Reader).ReadBytes")) {
+				c := rb.b.Instrs[rb.i].(*ssa.Call)
+				if len(c.Call.Args) < 2 || !isConstInt(c.Call.Args[1], '\n') {
+					okc, detail = false, "ReadBytes delimiter is not '\\n'"
+				}
+			}
+		}
+		e.add("reader#chunk-ends-at-newline-or-eof", funcKey(reader), props, okc, detail)
+	}
+	fwd := e.fn("ParseNDStream$3")
+	if fwd != nil {
+		// the item receive: <-items where items is itself received from the queue
+		var item ipos
+		found := false
+		for _, p := range find(fwd, func(in ssa.Instruction) bool {
+			u, ok := in.(*ssa.UnOp)
+			if !ok || u.Op != token.ARROW || u.CommaOk {
+				return false
+			}
+			_, fromTuple := u.X.(*ssa.Extract)
+			return fromTuple
+		}) {
+			item, found = p, true
+		}
+		okc, detail := found, "item receive not found"
+		if found {
+			// (a) every received item is offered on res before the next one is taken
+			offer := func(in ssa.Instruction) bool {
+				switch x := in.(type) {
+				case *ssa.Send:
+					return true
+				case *ssa.Select:
+					for _, s := range x.States {
+						if s.Dir == types.SendOnly {
+							return true
+						}
+					}
+				}
+				return false
+			}
+			self := item.b.Instrs[item.i]
+			again := func(in ssa.Instruction) bool { return in == self }
+			if r, _ := reachWithout(item, or(again, isReturn()), offer); r {
+				okc, detail = false, "an item can be dropped: the next receive / return is reachable without offering it on res"
+			}
+			// (b) a blocking send is skipped only on a flag that was decided by EARLIER items: the condition guarding the
+			// blocking send is a value defined in a block that dominates the item receive
+			if okc {
+				sends := find(fwd, isSend())
+				if len(sends) == 0 {
+					okc, detail = false, "no blocking send on res"
+				}
+				for _, s := range sends {
+					guardOK := false
+					for _, pred := range s.b.Preds {
+						c, _ := condOf(pred)
+						if c == nil {
+							continue
+						}
+						if in, isIn := c.(ssa.Instruction); isIn {
+							if in.Block() != item.b && in.Block().Dominates(item.b) {
+								guardOK = true
+							}
+						}
+					}
+					if !guardOK {
+						okc, detail = false, "the blocking delivery at "+e.pos(s.b.Instrs[s.i])+" is guarded by a value computed from the current item: its own error could make it non-blocking and be dropped"
+					}
+				}
+			}
+			if okc {
+				detail = "every item is offered; delivery blocks unless an EARLIER item carried an error"
+			}
+		}
+		e.add("forwarder#first-error-delivered", funcKey(fwd), props, okc, detail)
+	}
+	// C08/C01: in stage 2 a new root is opened (or the parse continued) after a finished document only when the next
+	// structural character is a newline
+	um := e.fn("(*internalParsedJson).unifiedMachine")
+	if um != nil {
+		// the If testing buf[idx] != '\n' (or ==)
+		isNLTest := func(b *ssa.BasicBlock) (token.Token, bool) {
+			c, _ := condOf(b)
+			bin, ok := c.(*ssa.BinOp)
+			if !ok || (bin.Op != token.NEQ && bin.Op != token.EQL) {
+				return 0, false
+			}
+			if !(isConstInt(bin.Y, '\n') || isConstInt(bin.X, '\n')) {
+				return 0, false
+			}
+			return bin.Op, true
+		}
+		// root-closing writes: write_tape(x, 'r') calls other than the first one in the entry block
+		var rootWrites []ipos
+		for _, p := range find(um, isCall("(*ParsedJson).write_tape")) {
+			c := p.b.Instrs[p.i].(*ssa.Call)
+			// opening writes only: write_tape(0, 'r') -- the closing root write carries the scope offset
+			if len(c.Call.Args) == 3 && isConstInt(c.Call.Args[2], 'r') && isConstInt(c.Call.Args[1], 0) && p.b != um.Blocks[0] {
+				rootWrites = append(rootWrites, p)
+			}
+		}
+		okc := len(rootWrites) > 0
+		detail := fmt.Sprintf("%d root writes after the start state", len(rootWrites))
+		// every path from an updateChar call to such a root write crosses the "is a newline" edge of a newline test
+		nonNL := func(b *ssa.BasicBlock, k int) bool {
+			op, isT := isNLTest(b)
+			if !isT {
+				return true
+			}
+			_, neg := condOf(b)
+			trueEdge := (k == 0) != neg
+			nlEdge := (op == token.EQL) == trueEdge
+			return !nlEdge
+		}
+		if okc {
+			isRW := func(in ssa.Instruction) bool {
+				for _, p := range rootWrites {
+					if p.b.Instrs[p.i] == in {
+						return true
+					}
+				}
+				return false
+			}
+			entry := ipos{um.Blocks[0], -1}
+			if r, w := reachEdges(entry, isRW, func(ssa.Instruction) bool { return false }, nonNL); r {
+				okc, detail = false, "a root is closed / a new root opened at "+e.pos(w)+" on a path that never saw a newline as the structural character after the previous document"
+			} else {
+				detail += "; each is reachable only over the newline edge of `buf[idx] == '\\n'`"
+			}
+		}
+		e.add("roots#separated-by-newline", funcKey(um), []string{"C08", "C01"}, okc, detail)
+	}
+}
